@@ -251,6 +251,8 @@ package simpledb
 
 //@ func (*DB).GetBytes
 //@   props C01 C18
+//@   replay db_program_model
+//@   bounded db_program_model database vs. reference map: 120 (quick) / 600 (thorough) seeded random programs of 40 steps over 5 keys (put, overwrite, delete, get, forced rotation, compaction cycle, close + re-open) x option sets (memstore 64 B .. 1 MiB, compaction threshold 1..3, max size 1 KiB .. 1 MiB, ratio 0.1 .. 1, read / write buffers 64 B .. 64 KiB); every Get and the full state after every restart are compared
 //@   requires db.rwLock != nil && db.sstableManager != nil && db.sstableManager.managerLock != nil && db.memStore != nil &&
 //@            db.memStore.writeStore != nil && db.memStore.readStore != nil && db.sstableManager.currentReader != nil
 //@   ensures [not-open] !db.open ==> r1 == ErrNotOpenedYet
@@ -303,6 +305,8 @@ package simpledb
 
 //@ func (*DB).replayAndSetupWriteAheadLog
 //@   props C10 C02 C13
+//@   replay crash_points
+//@   bounded crash_points process kill at file-system call boundaries (strace signal injection at the N-th write / pwrite64 / openat / rename* / unlink* / mkdir* / rmdir / ftruncate / fsync / fdatasync of a thread): a 16-operation workload (puts, overwrites, deletes, 2 compaction cycles, memstore rotations) x synchronous and asynchronous log x {real background flusher, sequential schedule on one locked thread = every call of the process}; every 9th call (quick) / every call (thorough); every 4th (5th) crash image additionally with the recovery killed once (twice); recovery killed at each unlink while it clears a log directory with three unflushed files; after each: Open succeeds and the reads equal the acknowledged prefix
 //@   requires db.memStore != nil && db.memStore.writeStore != nil && db.sstableManager != nil && db.sstableManager.managerLock != nil
 //@   call 0 of removeWalOldestFirst: assert [C10,C02:log-removed-only-after-the-replayed-records-are-in-a-table] numRecords == 0 ||
 //@        (called(executeFlush, 0) && callres(executeFlush, 0, 0) == nil)
@@ -346,3 +350,44 @@ package simpledb
 //@   modifies nothing
 //@   exit [C10:errors-fail-the-open] (called(os.RemoveAll, 0) && callres(os.RemoveAll, 0, 0) != nil) || (called(os.RemoveAll, 1) && callres(os.RemoveAll, 1, 0) != nil) ||
 //@        (called(os.Rename, 0) && callres(os.Rename, 0, 0) != nil) || (called(os.RemoveAll, 2) && callres(os.RemoveAll, 2, 0) != nil) ==> r0 != nil
+
+// ---------------------------------------------------------------------------------------------------
+// C19 / C10: the life cycle of a handle. Open runs the three recovery steps in order and starts serving only if all of them
+// succeeded; Close rejects a handle that is not open or already closed without touching anything, and otherwise closes the
+// log and the table stack after the last memstore was handed to the flusher.
+
+// tables are loaded oldest first (sorted directory names = generation order), each one that is listed is loaded or the Open fails
+//@ func (*DB).reconstructSSTables
+//@   assumed
+//@   // (only the modifies clause is an assumption - its frame proof over Walk's allocations does not terminate in time;
+//@   //  the call and exit clauses below are verified against the body)
+//@   props C01 C10
+//@   replay crash_points
+//@   requires db.sstableManager != nil && db.sstableManager.managerLock != nil
+//@   call 0 of SSTableManager.addReader: assert [C01,C10:loaded-table-joins-the-stack] called(sstables.NewSSTableReader, 0) && callres(sstables.NewSSTableReader, 0, 1) == nil &&
+//@        arg0 == callres(sstables.NewSSTableReader, 0, 0)
+//@   call 0 of sstables.NewSSTableReader: assert [C01,C10:tables-loaded-in-name-order] called(sort.Strings, 0) && 0 < iter
+//@   exit [C10:load-error-fails-the-open] called(sstables.NewSSTableReader, 0) && callres(sstables.NewSSTableReader, 0, 1) != nil ==> r0 != nil
+//@   modifies db.currentGeneration, db.sstableManager.allSSTableReaders, db.sstableManager.currentReader, db.sstableManager.allSSTableReaders[*]
+
+//@ func (*DB).Open
+//@   props C10 C19 C02
+//@   requires db.rwLock != nil && db.memStore != nil && db.memStore.writeStore != nil && db.sstableManager != nil && db.sstableManager.managerLock != nil
+//@   exit [C10:recovery-steps-in-order] called(DB.reconstructSSTables, 0) ==> called(DB.repairCompactions, 0) && callres(DB.repairCompactions, 0, 0) == nil
+//@   exit [C10:log-replayed-after-the-tables-are-loaded] called(DB.replayAndSetupWriteAheadLog, 0) ==> called(DB.reconstructSSTables, 0) && callres(DB.reconstructSSTables, 0, 0) == nil
+//@   exit [C10,C02:serves-only-after-a-complete-recovery] r0 == nil ==> called(DB.replayAndSetupWriteAheadLog, 0) && callres(DB.replayAndSetupWriteAheadLog, 0, 0) == nil
+//@   exit [C10:failed-recovery-is-reported] (called(DB.repairCompactions, 0) && callres(DB.repairCompactions, 0, 0) != nil) ||
+//@        (called(DB.reconstructSSTables, 0) && callres(DB.reconstructSSTables, 0, 0) != nil) ||
+//@        (called(DB.replayAndSetupWriteAheadLog, 0) && callres(DB.replayAndSetupWriteAheadLog, 0, 0) != nil) ==> r0 != nil
+
+//@ func (*DB).Close
+//@   props C19 C17
+//@   requires db.rwLock != nil && db.wal != nil && db.memStore != nil && db.sstableManager != nil && db.sstableManager.managerLock != nil &&
+//@            db.sstableManager.currentReader != nil
+//@   exit [C17,C19:not-open-or-closed-changes-nothing] !old(db.open) || old(db.closed) ==> r0 != nil && !called(WriteAheadLogI.Close, 0) && !called(SSTableReaderI.Close, 0) &&
+//@        !called(DB.rotateWalAndFlushMemstore, 0)
+//@   exit [C19:log-and-tables-closed] r0 == nil ==> called(WriteAheadLogI.Close, 0) && called(SSTableReaderI.Close, 0)
+//@   exit [C19:close-errors-reported] (called(WriteAheadLogI.Close, 0) && callres(WriteAheadLogI.Close, 0, 0) != nil) ||
+//@        (called(SSTableReaderI.Close, 0) && callres(SSTableReaderI.Close, 0, 0) != nil) ==> r0 != nil
+//@   call 0 of WriteAheadLogI.Close: assert [C19,C02:last-memstore-handed-over-before-the-log-is-closed] called(DB.rotateWalAndFlushMemstore, 0) &&
+//@        callres(DB.rotateWalAndFlushMemstore, 0, 0) == nil
